@@ -47,8 +47,17 @@ type LeafData struct {
 	Idx int
 }
 
+// poisoned parameter values make the node that reads them panic, as a user
+// node rejecting its input would; the edit server recovers from such panics
+// and keeps serving.
+const poison = 9000
+
 func (d LeafData) Process() (string, error) {
-	return fmt.Sprintf("p%d=%d", d.Idx, d.P.Value()), nil
+	v := d.P.Value()
+	if v >= poison {
+		panic(fmt.Errorf("node rejects parameter value %d", v))
+	}
+	return fmt.Sprintf("p%d=%d", d.Idx, v), nil
 }
 
 // MixData reads its inputs one at a time and yields to the scheduler between
@@ -121,6 +130,19 @@ func (g graphSpec) evalRef(r int, st []int) string {
 		return fmt.Sprintf("p%d=%d", p, st[p])
 	}
 	return g.evalNode(r, st)
+}
+
+// artifact is what Artifact(producer) must yield in state st: the
+// fingerprint, or "PANIC" when a parameter in its cone holds a poisoned value.
+func (g graphSpec) artifact(prod int, st []int) string {
+	cone := map[int]bool{}
+	g.paramsOf(g.Producers[prod], cone)
+	for p := range cone {
+		if st[p] >= poison {
+			return "PANIC"
+		}
+	}
+	return g.evalNode(g.Producers[prod], st)
 }
 
 func (g graphSpec) evalNode(i int, st []int) string {
@@ -287,7 +309,7 @@ func model(g *graphSpec) porcupine.Model {
 			case opRead:
 				return r.Val == strconv.Itoa(st[o.Param]), st
 			default:
-				return r.Val == g.evalNode(g.Producers[o.Prod], st[:]), st
+				return r.Val == g.artifact(o.Prod, st[:]), st
 			}
 		},
 		DescribeOperation: func(input, output interface{}) string {
@@ -338,6 +360,9 @@ func (Scenario) Run(c choice.Chooser, opt sim.Options) sim.Result {
 			switch choice.Pick(c, "op:kind", []int{4, 1, 2, 5}) {
 			case 0:
 				o = op{Kind: opUpdate, Param: usable[c.Intn("op:param", len(usable))], Value: next}
+				if c.Intn("op:poison", 7) == 6 {
+					o.Value = poison + next
+				}
 				next++
 			case 1:
 				o = op{Kind: opBadUpdate, Param: usable[c.Intn("op:param", len(usable))]}
@@ -374,8 +399,22 @@ func (Scenario) Run(c choice.Chooser, opt sim.Options) sim.Result {
 					detsched.Yield("client:return", int64(k))
 					r.Val = string(d)
 				default:
-					a := b.inst.Artifact(b.prodName[o.Prod])
+					var a artifact.Artifact
+					panicked := false
+					func() {
+						// the edit server recovers from a panicking node
+						defer func() {
+							if recover() != nil {
+								panicked = true
+							}
+						}()
+						a = b.inst.Artifact(b.prodName[o.Prod])
+					}()
 					detsched.Yield("client:return", int64(k))
+					if panicked {
+						r.Val = "PANIC"
+						break
+					}
 					// the server writes the artifact out after the call
 					// returned, outside the lock
 					detsched.Yield("client:write", int64(k))
